@@ -129,7 +129,14 @@ def one(topology, faulty, fkind, req, index, remote):
     sink_id = logger.add(lambda m: errors.append(str(m)), level='ERROR')
     before_live, before_z = children()
     gc.collect(); sockets_before = open_sockets()
-    w = mosaik.World(cfg, skip_greetings=True)
+    # fault kinds containing ':ownloop' : the caller hands its own event loop to the World and, as callers do, calls
+    # shutdown() again after run() (the clean-up in a finally block): every simulator is still finalized exactly once
+    own_loop = ':ownloop' in fkind
+    if own_loop:
+        caller_loop = asyncio.new_event_loop(); asyncio.set_event_loop(caller_loop)
+        w = mosaik.World(cfg, skip_greetings=True, asyncio_loop=caller_loop)
+    else:
+        w = mosaik.World(cfg, skip_greetings=True)
     res = dict(outcome=None)
     t0 = time.time(); t_fault = None
     def alarm(sig, frm): raise TimeoutError('run() did not terminate')
@@ -156,9 +163,15 @@ def one(topology, faulty, fkind, req, index, remote):
     finally:
         signal.alarm(0)
         res['elapsed'] = round(time.time() - t0, 2)
+        if own_loop:
+            try: w.shutdown()                  # the caller's own clean-up: a second shutdown
+            except BaseException as e: res['second_shutdown'] = type(e).__name__
         res['loop_closed'] = w.loop.is_closed()
         if not w.loop.is_closed():
             try: w.shutdown()
+            except BaseException: pass
+            try:
+                if own_loop and not w.loop.is_closed(): w.loop.close()
             except BaseException: pass
     del w
     gc.collect()
@@ -193,11 +206,14 @@ def one(topology, faulty, fkind, req, index, remote):
 def monitor(n, faulty, remote, fkind, res):
     bad = []
     if res['outcome'] == 'HANG': bad.append('run() did not terminate within 6 s')
+    elif fkind.startswith('none'):
+        if res['outcome'] != 'returned': bad.append(f"a run without any failure ended with {res['outcome']}")
     elif res['outcome'] == 'returned' and not res['remote_error_logged']: bad.append('run() returned normally without reporting the failure')
     if res['elapsed'] > 4.5: bad.append(f"run() took {res['elapsed']} s")
     for sid, k in res.get('requests_after_failure', {}).items():
         if k: bad.append(f'the failed simulator {sid} received {k} more request(s) after its failure')
-    if not res['loop_closed']: bad.append('event loop not closed')
+    if not res['loop_closed'] and ':ownloop' not in fkind: bad.append('event loop not closed')
+    if res.get('second_shutdown'): bad.append(f"a second shutdown() raised {res['second_shutdown']}")
     for i in range(n):
         if i == faulty: continue
         if remote == 'all': continue         # finalize of remote simulators is not observable here
@@ -227,6 +243,10 @@ def cases(tier):
                     if tier == 'thorough' or (index <= 1 and topology == 'pair') or (topology == 'chain' and faulty == 1 and index == 1):
                         out.append((topology, faulty, 'raise', req, index, True))
                         out.append((topology, faulty, 'exit', req, index, True))
+    # a World on the caller's own event loop, shut down a second time by the caller
+    for fk, req, index in (('raise:ownloop', 'step', 1), ('raise:ownloop', 'get_data', 0), ('none:ownloop', 'step', 99), ('raise:plain:ownloop:RuntimeError', 'step', 0)):
+        out.append(('pair', 0, fk, req, index, False))
+        out.append(('chain', 1, fk, req, index, False))
     # the moment of the failure swept over event-loop iterations: an unconnected simulator fails k iterations into its
     # step while a triggered simulator is being woken / waits for its next step to settle
     for index in ((1, 2) if tier == 'quick' else (0, 1, 2, 3)):
